@@ -616,7 +616,45 @@ func Exec(c Case) kit.Outcome {
 		}
 	}
 	lazy := len(c.Expired) == 0 // identical servers can be built when needed unless they have to pass a deadline together
-	nprep := 1 + nserial
+	// Keys past their deadline: a command may or may not apply lazy expiry by itself (LLEN does not), which
+	// the property allows within the deadline's second as long as nothing that was seen missing is seen again.
+	// So "the key is still stored" and "some command has removed it" are both legitimate at every point, and
+	// the concurrent run may differ from a serial one just in when the removal happened. The serial runs are
+	// therefore repeated with the touched expired keys removed (by a command that applies lazy expiry and has
+	// no other effect) before the p-th atom, for every p. With one touched key this is exhaustive; with
+	// several (they could go at different moments) or too many servers to prepare, a mismatch is inconclusive.
+	var touched []string
+	total := 0
+	{
+		seen := map[string]bool{}
+		cmds := []kit.Cmd{c.A}
+		for _, p := range c.Pauses {
+			cmds = append(cmds, p.Run)
+		}
+		for _, cmd := range cmds {
+			total += len(atomsOf(cmd))
+			for _, a := range cmd[1:] {
+				for _, k := range c.Expired {
+					if string(a) == k && !seen[k] {
+						seen[k] = true
+						touched = append(touched, k)
+					}
+				}
+			}
+		}
+	}
+	purges := []int{-1}
+	partial := false
+	if len(touched) > 0 {
+		if nserial*(total+2) <= 40 {
+			for p := 0; p <= total; p++ {
+				purges = append(purges, p)
+			}
+		} else {
+			partial = true
+		}
+	}
+	nprep := 1 + nserial*len(purges)
 	if lazy {
 		nprep = 1
 	}
@@ -722,11 +760,19 @@ func Exec(c Case) kit.Outcome {
 	var tried []string
 	ok := false
 	seqs := interleavings(ops)
+	used := 0
+	type variant struct {
+		seq   [][2]int
+		purge int
+	}
+	var variants []variant
 	for _, seq := range seqs {
-		if nserial == 0 {
-			break
+		for _, p := range purges {
+			variants = append(variants, variant{seq, p})
 		}
-		nserial--
+	}
+	for _, vr := range variants {
+		seq := vr.seq
 		var sdb *inproc.DB
 		if lazy {
 			one, _, bad := schedPrepare(c, 1)
@@ -735,12 +781,25 @@ func Exec(c Case) kit.Outcome {
 			}
 			sdb = one[0]
 		} else {
-			sdb = dbs[1+nserial]
+			used++
+			if used >= len(dbs) {
+				break
+			}
+			sdb = dbs[used]
 		}
 		sums := make([]int64, len(ops))
 		reps := make([]string, len(ops))
 		var desc []string
-		for _, st := range seq {
+		purge := func(pos int) {
+			if vr.purge == pos {
+				for _, k := range touched {
+					sdb.Do(kit.MkCmd("TYPE", k).Bytes())
+				}
+				desc = append(desc, fmt.Sprintf("(keys past their deadline removed: %v)", touched))
+			}
+		}
+		for pos, st := range seq {
+			purge(pos)
 			at := ops[st[0]].atoms[st[1]]
 			r := sdb.Do(at.Bytes())
 			rep := canonSched(at, r.Val)
@@ -751,6 +810,7 @@ func Exec(c Case) kit.Outcome {
 			}
 			reps[st[0]] = rep
 		}
+		purge(len(seq))
 		same := true
 		for i := range ops {
 			if reps[i] != ops[i].reply {
@@ -768,6 +828,11 @@ func Exec(c Case) kit.Outcome {
 		// the runs were to happen while the keys are past their deadline but still stored; they took longer
 		// (a pop that waited): the timers have removed the keys in the middle of it, nothing is concluded
 		o.Inconclusive = true
+		return o
+	}
+	if !ok && (partial || len(touched) > 1) {
+		o.Inconclusive = true
+		o.Labels = append(o.Labels, "mismatch-with-several-keys-past-their-deadline(not-decided)")
 		return o
 	}
 	if !ok {
